@@ -10,7 +10,7 @@ sys.path.insert(0, "/verif/harness/py")
 import ber  # noqa: E402
 
 
-def gen_mib(rng):
+def gen_mib(rng, table=False):
     """sorted list of (arcs, (valueTLV, pyvalue)); siblings sharing byte prefixes, multi-octet arcs"""
     n = rng.choice([0, 1, 2, 5, 12, 30])
     roots = [(1, 3, 6, 1, 2, 1), (1, 3, 6, 1, 4, 1, 16383), (1, 3, 6, 128), (1, 3, 6, 129), (1, 3, 7), (1, 3), (0, 0),
@@ -22,14 +22,33 @@ def gen_mib(rng):
                          else rng.getrandbits(rng.randrange(1, 33)) for _ in range(rng.randrange(0, 4)))
         t = values.gen_value(rng, data_only=True, allow_real=False)
         ents[arcs] = (t[0], t[1])
+    troot = None
+    if table or rng.random() < 0.3:
+        # a table: many names of the same length under one root (column.index), as real MIBs have
+        r = troot = rng.choice(roots[:4])
+        for col in rng.sample(range(1, 12), rng.randrange(1, 4)):
+            for idx in rng.sample([1, 2, 3, 127, 128, 200, 300, 16383, 16384, 70000], rng.randrange(2, 6)):
+                t = values.gen_value(rng, data_only=True, allow_real=False)
+                ents[r + (1, col, idx)] = (t[0], t[1])
+    if rng.random() < 0.15:
+        # names of 128+ encoded octets (the length of their OID element needs the long form), several in a row
+        r = rng.choice(roots[:5])
+        for k in range(rng.randrange(2, 5)):
+            arcs = r + tuple([2 ** 32 - 1] * rng.randrange(26, 40)) + (k,)
+            t = values.gen_value(rng, data_only=True, allow_real=False)
+            ents[arcs] = (t[0], t[1])
     mib = sorted(ents.items())
     bases = roots + [m[0] for m in mib[:3]] + [(1, 3, 6, 1, 2, 1, 99), (2, 39), (1, 3, 6, 1, 2)]
+    if table:
+        return mib, troot
     return mib, rng.choice(bases)
 
 
-def agent_replies(mib, base, kind, maxrep, cap, v1):
+def agent_replies(mib, base, kind, maxrep, cap, v1, overshoot=False, rel_rng=None):
     """RFC 3416 agent: the sequence of replies to the requests a correct walker sends.
-    Computed lazily from the request OID actually received: returns a function req_arcs -> rep."""
+    Computed lazily from the request OID actually received: returns a function req_arcs -> rep.
+    overshoot: an agent that answers with `cap` rows however few were asked for (the property quantifies over any
+    agent-side repetition count)"""
     keys = [m[0] for m in mib]
 
     def getnext(o):
@@ -46,17 +65,23 @@ def agent_replies(mib, base, kind, maxrep, cap, v1):
                 return [(o, ber.ENDOFMIBVIEW)]
             return [(e[0], e[1][0])]
         if req["pdu_type"] == 5:
-            n = min(req["max_repetitions"], cap)
+            n = cap if (overshoot and req["max_repetitions"] > 0) else min(req["max_repetitions"], cap)
             out = []
             cur = o
+            size = 0
             for _ in range(max(n, 0)):
+                # like a real agent, never build a reply beyond what a datagram / the manager's buffer takes
+                if out and size > 1200:
+                    break
                 e = getnext(cur)
+                size += 8 + (6 * len(e[0]) + len(e[1][0]) if e else 6 * len(cur))
                 if e is None:
                     out.append((cur, ber.ENDOFMIBVIEW))
                 else:
                     out.append((e[0], e[1][0]))
                     cur = e[0]
-            return out
+            # (rel_rng: an agent that compresses the names of a reply with RELATIVE-OID elements)
+            return walks.relativize(rel_rng, out) if rel_rng is not None else out
         return []
     return reply
 
@@ -87,6 +112,8 @@ def run_mode(mode, peer, kind, base, maxrep, reply_fn, env, use_fetch=False, all
         return [peer.response(req, [ber.varbind(n, ber.INT(9000 + i)) for i, n in enumerate(names)])]
 
     def dgs(req):
+        if not isinstance(req, dict) or "pdu_type" not in req or req.get("undecodable"):
+            return []                  # an agent drops what it cannot parse
         if in_pre["on"]:
             return pre_page(req)
         rep = reply_fn(req)
@@ -160,7 +187,10 @@ def run_mode(mode, peer, kind, base, maxrep, reply_fn, env, use_fetch=False, all
     state = {}
 
     def script(dg):
-        req = peer.decode(dg)
+        try:
+            req = peer.decode(dg)
+        except ber.BerError as e:
+            req = {"undecodable": str(e)}
         if not in_pre["on"]:
             out.requests.append(req)
         return dgs(req)
@@ -218,12 +248,14 @@ def run(chk, model_ok=True):
             peer = rng.choice(peers)
             v1 = peer.kind == "v1"
             mib, base = gen_mib(rng)
-            maxrep = rng.choice([1, 2, 3, 7, 20])
+            maxrep = rng.choice([1, 2, 3, 7, 20, 20, 127, 128, 200, 255, 256, 1000])
             cap = rng.choice([1, 2, 5, 50])
+            overshoot = rng.random() < 0.2
             use_fetch = mode != "raw" and rng.random() < 0.3
             allow_bulk = rng.random() < 0.7
             kind = "next" if v1 else rng.choice(["next", "bulk"])
-            reply_fn = agent_replies(mib, base, kind, maxrep, cap, v1)
+            rel = rng.random() < 0.25
+            reply_fn = agent_replies(mib, base, kind, maxrep, cap, v1, overshoot, rng if rel else None)
             # sometimes the caller has abandoned another GetBulk walk just before (rows left in its buffer)
             pre = mode != "raw" and rng.random() < 0.2
             out = run_mode(mode, peer, kind, values.dotted(base), maxrep, reply_fn, env, use_fetch, allow_bulk, pre)
@@ -231,9 +263,13 @@ def run(chk, model_ok=True):
             n_exch += len(out.requests)
             want = subtree(mib, base)
             detail = {"mode": mode, "session": peer.label, "kind": kind, "fetch": use_fetch, "allow_bulk": allow_bulk,
-                      "abandoned_walk_before": pre,
+                      "abandoned_walk_before": pre, "agent_ignores_max_repetitions": overshoot, "relative_names": rel,
                       "base": values.dotted(base), "maxrep": maxrep, "agent_cap": cap,
                       "mib": [values.dotted(a) for a, _ in mib]}
+            if any(not (isinstance(y, tuple) and len(y) == 2) for y in out.yields):
+                fail(f"walk of {values.dotted(base)} ({mode}/{peer.label}/{kind}) yielded {[y for y in out.yields if not (isinstance(y, tuple) and len(y) == 2)][:2]!r}: "
+                     "not an (oid, value) pair", detail)
+                continue
             got = [(o, e2e.canon(v)) for o, v in out.yields]
             exp = [(o, e2e.canon(v)) for o, v in want]
             if out.ending != "stop":
